@@ -1032,7 +1032,8 @@ fn zoned_utc(secs: i64) -> rustic_core::jiff::Zoned {
 /// whose delete-after time has long passed (snapshot time 2000, delete-after 2001 … 2019), one whose delete-after time is far in
 /// the future (year 2100+), one `delete-never`, optionally plain ones.  Every backup has a directory of its own (`only<k>/`, 1–2
 /// files of random content, so data blobs, that directory's tree and the root tree are referenced by this snapshot alone) next
-/// to a shared, unchanged part.  Nobody has run `forget`: all of them are listed and restorable.
+/// to a shared, unchanged part, which a first plain backup has stored on its own.  Nobody has run `forget`: all of them are
+/// listed and restorable.
 pub fn build_delete_marks(rng: &mut Rng, stats: &mut Stats) -> Option<Built> {
     let (cfg, v1) = meta_cfg(rng, stats);
     let h = init_repo(&cfg, v1)?;
@@ -1044,6 +1045,13 @@ pub fn build_delete_marks(rng: &mut Rng, stats: &mut Stats) -> Option<Built> {
         marks.swap(i, rng.below(i as u64 + 1) as usize);
     }
     let shared = [SrcEntry::file(&[b"shared", b"s0"], &rng.bytes(300)), SrcEntry::file(&[b"shared", b"s1"], &rng.bytes(2500))];
+    // the shared part is backed up first on its own (a plain snapshot): the packs of every later backup then hold ONLY what that
+    // snapshot alone refers to (its directory's chunks and tree, its root tree) — otherwise the first marked snapshot's own blobs
+    // would sit in packs that the other snapshots keep in check's read set anyway
+    {
+        let repo = open_nc(&h).ok()?.to_indexed_ids().ok()?;
+        _ = repo.archive(&BackupOptions::default(), &MemSource::new(shared.to_vec()), SnapshotFile::default(), &[PathBuf::from(crate::repo::SRC_ROOT)]).ok()?;
+    }
     for (k, m) in marks.iter().enumerate() {
         let mut es = shared.to_vec();
         let dir = format!("only{k}").into_bytes();
@@ -1084,7 +1092,7 @@ pub fn build_delete_marks(rng: &mut Rng, stats: &mut Stats) -> Option<Built> {
     }
     stats.hit("repo.delete-marks");
     let expected = all_digests(&h).ok()?;
-    if expected.len() != marks.len() {
+    if expected.len() != marks.len() + 1 {
         return None;
     }
     Some(Built { h, expected })
@@ -1390,6 +1398,22 @@ pub fn generate(thorough: bool, rng: &mut Rng, ops: &mut Vec<String>, stats: &mu
                 _ = ds.swap_remove(i);
             }
         }
+        // `./check` turns only the first 40 disagreeing cases of a run into reports, so within a repository the faults that
+        // nothing but a look-up or a read of the data can find (bit flips, exchanged / replaced files, dropped index entries, a
+        // removed index file — the candidates for SILENT damage) go before those the listings already show (removed or
+        // truncated packs, duplicated entries); stable, so the generation order is kept inside a class
+        let class = |l: &str| -> u8 {
+            if l == "none" {
+                0
+            } else if l == "flip.pack.blob" || l == "index.drop-pack" || l == "remove.index" {
+                1
+            } else if l.starts_with("flip.") || l.starts_with("swap.") || l.starts_with("replace.") || l == "index.drop-blob" || l.ends_with(".snapshot") || l.starts_with("truncate.snapshot") {
+                2
+            } else {
+                3
+            }
+        };
+        ds.sort_by_key(|(l, _)| class(l));
         for (label, store) in ds {
             stats.hit(format!("fault.{label}"));
             let l = line(&label, &b.h.key, &store, &b.expected);
